@@ -11,7 +11,7 @@ import os
 from vlib.common import Check, rng, run_case, pmap, workdir, cleanup, short
 
 CLASSES = ['PersistentThreadWorker', 'PersistentProcessWorker', 'PersistentRemoteWorker']
-STATES = ['never-used', 'results-unread', 'inputs-queued', 'closed', 'died-by-exception', 'killed', 'uncooperative', 'busy']
+STATES = ['never-used', 'results-unread', 'inputs-queued', 'closed', 'died-by-exception', 'killed', 'uncooperative', 'busy', 'slow-exit']
 
 
 def kind_of(cls):
@@ -41,6 +41,11 @@ def case(spec, log):
     try:
         target = vtargets.restart_target
         pipe0 = Pipe() if spec['supplied_pipe'] else None
+        if state == 'slow-exit':
+            if not own:
+                return {'skipped': 'slow-exit is a thread-kind state'}
+            from vlib.vstate import SlowCleanupPersistentThreadWorker
+            cls = SlowCleanupPersistentThreadWorker
         w = cls(target, args=['D1', 'D2'], kwargs={'dk': 5}, name='wname', userid=77, results_pipe=pipe0, **kw)
         inc = 0
         uid = 0
@@ -76,19 +81,23 @@ def case(spec, log):
         elif state == 'uncooperative':
             enq(kind='swallow')
             time.sleep(0.3)
+        elif state == 'slow-exit':
+            enq(kind='raise')
+            time.sleep(0.3)     # outcome recorded, thread still inside its (slow) cleanup
         elif state == 'busy':
             enq(kind='slow')
             time.sleep(0.05)
         for hop in range(spec['restarts']):
             old_id = w.id
             old_pid = w.pid
+            old_thread = w._child if own else None      # observation only: is the old incarnation's thread gone?
             newpipe = Pipe() if spec['supplied_pipe'] else None
             r = bounded('restart', lambda: w.restart(timeout=spec['timeout'], results_pipe=newpipe), 60)
             inc += 1
             if r is HANG:
                 log.ev('hop', hop=hop, outcome='hang')
                 return {'fatal': 'restart hang'}
-            old_running = (not own) and pid_running(old_pid)
+            old_running = pid_running(old_pid) if not own else old_thread.is_alive()
             if isinstance(r, Raised):
                 log.ev('hop', hop=hop, outcome='raised:' + type(r.exc).__name__, msg=str(r.exc)[:100], old_pid_running=old_running)
                 break
@@ -127,6 +136,8 @@ def case(spec, log):
 def judge(chk, spec, res):
     cls, state = spec['cls'], spec['state']
     hops = [e for e in res['events'] if e.get('ev') == 'hop']
+    if not hops and (res['result'] or {}).get('skipped'):
+        return
     if not hops:
         hangs = [e for e in res['events'] if e.get('ev') == 'hang']
         chk.inconclusive('no restart observed', {'spec': spec, 'stderr': res['stderr'][-500:], 'hangs': hangs[:1], 'timed_out': res['timed_out']})
@@ -139,7 +150,7 @@ def judge(chk, spec, res):
             probs.append('restart-blocks')
         elif h['outcome'].startswith('raised'):
             chk.count('restart_raised_' + h['outcome'][7:])
-            if state != 'uncooperative' and not (state == 'busy' and False):
+            if state not in ('uncooperative', 'slow-exit'):
                 probs.append('restart-%s' % h['outcome'])
             # raising is the allowed way out for a worker that cannot be stopped
         else:
